@@ -44,7 +44,12 @@ type CB struct {
 	// "write" (the transport fails the second write of the answer, i.e. the return character).
 	FailRun  int    `json:"fail_run,omitempty"`
 	FailKind string `json:"fail_kind,omitempty"`
+	// OptOrder: the order in which the options are handed to generic.NewCallback (names as in
+	// optionNames); empty = the order of optionNames.
+	OptOrder []string `json:"option_order,omitempty"`
 }
+
+var optionNames = []string{"contains", "not-contains", "re", "sensitive", "once", "complete", "reset", "next-timeout", "name"}
 
 // Desc is a complete case descriptor.
 type Desc struct {
@@ -64,6 +69,14 @@ type Desc struct {
 	ReadDelayUs int                 `json:"read_delay_us"`
 	// Repeat > 0 (silent device only): the same operation is issued Repeat more times with
 	// RepeatMs as timeout; each must end with the timeout error and run nothing.
+	// Pager > 0: the input line starts an output of Pager pages; every page but the last ends in
+	// More (or, on odd pages, in Confirm if set) and the device waits for any line before it prints
+	// the next one; the last page ends in Final. One callback execution per page.
+	Pager    int    `json:"pager,omitempty"`
+	PageLine string `json:"page_line,omitempty"`
+	More     string `json:"more,omitempty"`
+	Confirm  string `json:"confirm,omitempty"`
+	Final    string `json:"final,omitempty"`
 	// Rounds > 1 (Input non-empty): after an operation that completed, the same operation is issued
 	// again with the very same callback objects; the device restarts its script on the input line.
 	Rounds   int `json:"rounds,omitempty"`
@@ -78,6 +91,23 @@ type device struct {
 	buf   []byte
 	seen  map[string]int
 	lines int
+	page  int
+}
+
+func (v *device) pageText(i int) string {
+	var b strings.Builder
+	for n := 0; n < 1+i%3; n++ {
+		fmt.Fprintf(&b, "%s %d/%d.%d\n", v.d.PageLine, i, v.d.Pager, n)
+	}
+	switch {
+	case i >= v.d.Pager:
+		b.WriteString(v.d.Final)
+	case v.d.Confirm != "" && i%2 == 1:
+		b.WriteString(v.d.Confirm)
+	default:
+		b.WriteString(v.d.More)
+	}
+	return b.String()
 }
 
 func (v *device) Start(c *devsim.Conn) {
@@ -107,6 +137,11 @@ func (v *device) Input(c *devsim.Conn, b []byte) {
 		if v.d.Echo {
 			c.Emit([]byte(line + "\n"))
 		}
+		if v.d.Pager > 0 && (v.page == 0 && line == v.d.Input || v.page > 0 && v.page < v.d.Pager) {
+			v.page++
+			c.Emit([]byte(v.pageText(v.page)))
+			continue
+		}
 		outs, ok := v.d.Replies[line]
 		k := v.seen[line]
 		v.seen[line]++
@@ -134,6 +169,10 @@ type refTrigger struct {
 	contains, notContains string
 	re                    *regexp.Regexp
 	insens                bool
+	// reFold is NOT part of the oracle: for a case-sensitive pattern without a case flag of its
+	// own, the same pattern ignoring case (evidence: boundaries at which only the case kept a
+	// sensitive pattern from matching)
+	reFold *regexp.Regexp
 }
 
 func mkTrigger(cb CB) (refTrigger, error) {
@@ -144,6 +183,9 @@ func mkTrigger(cb CB) (refTrigger, error) {
 			return t, err
 		}
 		t.re = re
+		if cb.Sensitive && !strings.HasPrefix(cb.Re, "(?i") {
+			t.reFold, _ = regexp.Compile("(?i)" + cb.Re)
+		}
 	}
 	return t, nil
 }
@@ -374,6 +416,7 @@ func runOnce(d Desc) (mon.Result, bool) {
 		}
 	}()
 
+	j0obs := map[string]int64{"cases": 1}
 	cbs := make([]*generic.Callback, len(d.CBs))
 	for i, cb := range d.CBs {
 		i, cb := i, cb
@@ -410,32 +453,53 @@ func runOnce(d Desc) (mon.Result, bool) {
 				return werr
 			}
 		}
-		var o []util.Option
+		optBy := map[string]util.Option{"name": opoptions.WithCallbackName(cb.Name)}
 		if cb.Contains != "" {
-			o = append(o, opoptions.WithCallbackContains(cb.Contains))
+			optBy["contains"] = opoptions.WithCallbackContains(cb.Contains)
 		}
 		if cb.NotContains != "" {
-			o = append(o, opoptions.WithCallbackNotContains(cb.NotContains))
+			optBy["not-contains"] = opoptions.WithCallbackNotContains(cb.NotContains)
 		}
 		if cb.Re != "" {
-			o = append(o, opoptions.WithCallbackContainsRe(regexp.MustCompile(cb.Re)))
+			optBy["re"] = opoptions.WithCallbackContainsRe(regexp.MustCompile(cb.Re))
 		}
 		if cb.Sensitive {
-			o = append(o, opoptions.WithCallbackInsensitive(false))
+			optBy["sensitive"] = opoptions.WithCallbackInsensitive(false)
 		}
 		if cb.Once {
-			o = append(o, opoptions.WithCallbackOnce())
+			optBy["once"] = opoptions.WithCallbackOnce()
 		}
 		if cb.Complete {
-			o = append(o, opoptions.WithCallbackComplete())
+			optBy["complete"] = opoptions.WithCallbackComplete()
 		}
 		if cb.ResetOpt {
-			o = append(o, opoptions.WithCallbackResetOutput())
+			optBy["reset"] = opoptions.WithCallbackResetOutput()
 		}
 		if cb.NextMs > 0 {
-			o = append(o, opoptions.WithCallbackNextTimeout(time.Duration(cb.NextMs)*time.Millisecond))
+			optBy["next-timeout"] = opoptions.WithCallbackNextTimeout(time.Duration(cb.NextMs) * time.Millisecond)
 		}
-		o = append(o, opoptions.WithCallbackName(cb.Name))
+		// the options in the order the descriptor spells out; what it does not name follows in the default order
+		var o []util.Option
+		posRe, posSens := -1, -1
+		for _, n := range append(append([]string(nil), cb.OptOrder...), optionNames...) {
+			if op, ok := optBy[n]; ok {
+				if n == "re" {
+					posRe = len(o)
+				}
+				if n == "sensitive" {
+					posSens = len(o)
+				}
+				o = append(o, op)
+				delete(optBy, n)
+			}
+		}
+		if posRe >= 0 && posSens >= 0 {
+			if posRe < posSens {
+				j0obs["callbacks_with_pattern_option_before_sensitivity_option"]++
+			} else {
+				j0obs["callbacks_with_pattern_option_after_sensitivity_option"]++
+			}
+		}
 		c, err := generic.NewCallback(fn, o...)
 		if err != nil {
 			return mon.Result{Verdict: mon.Violated, Key: "c18/new-callback-failed", Detail: err.Error()}, false
@@ -448,7 +512,12 @@ func runOnce(d Desc) (mon.Result, bool) {
 
 	timeout := time.Duration(d.TimeoutMs) * time.Millisecond
 	j := &judge{d: &d, trigs: trigs, tCase: tCase, fired: map[int]int{}, failedOnce: map[int]bool{},
-		obs: map[string]int64{"cases": 1}, tags: map[string]bool{}}
+		obs: j0obs, tags: map[string]bool{}}
+	for i := range d.CBs {
+		if trigs[i].reFold != nil {
+			j.obs["sensitive_pattern_callbacks_without_own_case_flag"]++
+		}
+	}
 	for _, cb := range d.CBs {
 		if cb.nonASCIITrigger() {
 			j.obs["non_ascii_trigger_cases"]++
@@ -581,6 +650,8 @@ type evalRes struct {
 	caseMappingDecided, vetoNeedsMapping, splitLetter bool
 	// evidence only: the verdict of some callback would differ if literal texts were trimmed
 	edgeSpaceDecided bool
+	// evidence only: a case-sensitive pattern failed to match only because of the case
+	sensPatternCaseDecided bool
 }
 
 func (j *judge) eval(a, k int) evalRes {
@@ -596,6 +667,9 @@ func (j *judge) eval(a, k int) evalRes {
 			if t.positive(out) && t.excluded(out) && !x {
 				r.vetoNeedsMapping = true
 			}
+		}
+		if t.reFold != nil && !t.re.MatchString(out) && t.reFold.MatchString(out) && !t.holds(out) {
+			r.sensPatternCaseDecided = true
 		}
 		if (edgeSpace(t.contains) || edgeSpace(t.notContains)) && t.holdsTrimmed(out) != t.holds(out) {
 			r.edgeSpaceDecided = true
@@ -648,6 +722,11 @@ func (j *judge) noteEval(r evalRes) {
 	}
 	if r.splitLetter {
 		j.obs["boundaries_inside_a_multibyte_letter"]++
+	}
+	if r.sensPatternCaseDecided {
+		j.obs["boundaries_where_only_the_case_kept_a_sensitive_pattern_from_matching"]++
+		j.tags["case-kept-a-sensitive-pattern-from-matching"] = true
+		j.nontrivial = true
 	}
 	if r.edgeSpaceDecided {
 		j.obs["boundaries_where_a_literals_edge_whitespace_decided"]++
@@ -719,6 +798,14 @@ func (j *judge) judge(haveResp bool, result string, opErr error) mon.Result {
 	}
 	j.obs["chunks"] += int64(n - j.base)
 	j.obs["firings"] += int64(len(j.firings))
+	if nf := len(j.firings); nf > 100 {
+		j.obs["operations_with_more_than_100_callback_runs"]++
+		j.tags["callback-runs-in-one-operation>100"] = true
+		if nf > 300 {
+			j.obs["operations_with_more_than_300_callback_runs"]++
+			j.tags["callback-runs-in-one-operation>300"] = true
+		}
+	}
 
 	a, e := j.base, j.base
 	fired := j.fired
@@ -965,6 +1052,9 @@ func (j *judge) judge(haveResp bool, result string, opErr error) mon.Result {
 		return mon.Result{Verdict: mon.Inconclusive, Detail: inconclusive, Obs: j.obs}
 	}
 	j.outcome = outcome
+	if outcome == "complete" && len(j.firings) > 100 {
+		j.obs["long_dialogues_completed_after_more_than_100_callback_runs"]++
+	}
 	j.tags["family="+d.Family] = true
 	j.tags["outcome="+outcome] = true
 	j.tags["family/outcome="+d.Family+"/"+outcome] = true
